@@ -1057,6 +1057,18 @@ class Unit:
                         self.shape_seen = getattr(self, "shape_seen", {})
                         self.shape_seen.setdefault(f"{relfile}::{path}", {})[grp] = lim
 
+        # shape guard, `break`: the facts known on the path to a `break` do not survive the loop (only the invariant does), whereas a
+        # `return` at the same place is checked against the postcondition with the whole path. A refactoring that turns one into the
+        # other (`return e` inside the loop -> `let x = loop { .. break e; }; x`) is behaviour-preserving but changes what the proof
+        # written for the function can establish: if the number of `break`s differs from the pinned tree the function is undecided
+        if body and not ext_body:
+            code_b_ = re.sub(r'//[^\n]*|/\*.*?\*/|"(?:\\.|[^"\\])*"', " ", src[it["body"][0]:it["body"][1]].decode(), flags=re.S)
+            nbreak_ = len(re.findall(r"\bbreak\b", code_b_))
+            self.shape_seen = getattr(self, "shape_seen", {})
+            self.shape_seen.setdefault(f"{relfile}::{path}", {})["breaks"] = nbreak_
+            want_b_ = SHAPES.get(f"{relfile}::{path}", {}).get("breaks")
+            if want_b_ is not None and want_b_ != nbreak_:
+                raise AnchorLost(f"{where}: the function now has {nbreak_} `break`(s) where the proof was written for {want_b_}: what holds after its loops may differ")
         cedits = cfg_node_edits(src, it.get("cfg_nodes", []), lambda pos, note: self.log("R7", relfile, src, pos, note))
         edits = [x for x in edits if not any(c.s <= x.s and x.e <= c.e for c in cedits)] + cedits
         r = Renderer(src, edits)
